@@ -51,4 +51,11 @@ theorem derive_retired {K} (k : Keys) (i j : Nat) (h : i + 1 < k.ourKeyID ∨ j 
     ∃ e, k.deriveSessionKeys K i j = .error e := by
   first | exact Otr.derive_retired | exact @Otr.derive_retired | (apply Otr.derive_retired <;> assumption) | (intros; apply Otr.derive_retired <;> assumption)
 
+/-- repaired code: a rotation that cannot draw its new key changes nothing — no MAC key queued for
+    disclosure, no counter forgotten (before the repair the previous generation stayed valid while its
+    counters were forgotten and its MAC keys revealed: replay accepted after a randomness failure) -/
+theorem rotateOurKeys_fail_unchanged (K : Crypto) (k : Keys) (r : Nat) :
+    k.rotateOurKeys K r none = (k, if r = k.ourKeyID then some .shortRandom else none) :=
+  Otr.rotateOurKeys_fail_unchanged K k r
+
 end Otr.C09
